@@ -367,8 +367,6 @@ func (this *Dataset) Search(ctx context.Context, query math.Vector, k uint) (ind
 
 	go func() {
 		wg.Wait()
-		close(resultCh)
-		close(errorCh)
 	}()
 
 	result := make(index.SearchResult, 0, int(k)*len(nodePartitions))
@@ -411,8 +409,6 @@ func (this *Dataset) SearchPartitions(ctx context.Context, partitionIds []uuid.U
 
 	go func() {
 		wg.Wait()
-		close(resultCh)
-		close(errorCh)
 	}()
 
 	result := make(index.SearchResult, 0, int(k)*len(partitions))
